@@ -40,13 +40,24 @@ def decFlags : List String → Bool × Nat × List String
   | "dp" :: r => let x := decFlags r; (x.1, 2, x.2.2)
   | r => (false, 0, r)
 
+/-- `m<k>` after the other flags: the handler edits its start element in place (edit number k) -/
+def decMut : List String → Nat × List String
+  | f :: r =>
+    if f.length == 2 && f.startsWith "m" then
+      (match (f.drop 1).toString.toNat? with
+       | some k => (k, r)
+       | none => (0, f :: r))
+    else (0, f :: r)
+  | [] => (0, [])
+
 def decProg (s : String) : Option Prog :=
   match s.splitOn "," with
   | r :: rest => do
     let r ← decRet r
     let fl := decFlags rest
-    let ops ← mapM? decOp fl.2.2
-    pure { ops := ops, ret := r, close := fl.1, dl := fl.2.1 }
+    let mu := decMut fl.2.2
+    let ops ← mapM? decOp mu.2
+    pure { ops := ops, ret := r, close := fl.1, dl := fl.2.1, edit := mu.1 }
   | [] => none
 
 def decProgs (s : String) : Option (List Prog) :=
@@ -124,6 +135,19 @@ def handleServeX (args : List String) : Option Out :=
     let toks ← decToks toks
     let progs ← decProgs progs
     pure (serveC { ns := ns, localBare := lb, jidCanon := jidOracle jm } cl toks progs)
+  | _ => none
+
+/-- `servew <left> <ns> <localBare> <jidmap> <toks> <progs>`: the connection accepts `left` more writes -/
+def handleServeW (args : List String) : Option Out :=
+  match args with
+  | [left, ns, lb, jm, toks, progs] => do
+    let left ← left.toNat?
+    let ns ← decNs ns
+    let lb ← unhexF (if lb == "-" then "" else lb)
+    let jm ← decJidMap jm
+    let toks ← decToks toks
+    let progs ← decProgs progs
+    pure (serveW { ns := ns, localBare := lb, jidCanon := jidOracle jm } left toks progs)
   | _ => none
 
 def handleServe (args : List String) : Option Out :=
